@@ -1,13 +1,17 @@
 // C08 — configuration parser is total and fails cleanly.
-// Stateless choice-tree DFS: every string up to length L over a per-format token alphabet
-// (plus long-token shapes and <=2 token mutations of longer seed documents) is fed through a
-// counting, never-rewinding getc into
-//   E1  mpt_parse_config with a recording handler (event nesting oracle), and
+// Stateless choice-tree DFS: every string up to length L over a per-format token alphabet (plus
+// long-token shapes, a buffer-fill sweep and <=2 token mutations of longer seed documents) is fed
+// through a counting, never-rewinding getc into
+//   E1  mpt_parse_config with a recording handler (event nesting oracle; handler failure injected),
+//   E3  the element loop of examples/core/parse.c on a length-linked (binary) path, and
 //   E2  mpt_parse_node into an empty and into pre-populated roots (failed parse => tree unchanged),
-// for every format family / delimiter set / name-flag set.  Oracles: the source is never asked
-// again after it reported end of input, AddressSanitizer stays silent, the allocation ledger is
-// back at its baseline after cleanup, events are well nested, a failed mpt_parse_node leaves
-// the canonical form (names, values, order, depth) and the old nodes of the target untouched.
+// for every format family / delimiter set / name-flag set.  Oracles: an element call never asks
+// the source again after the source told it "end of input" (and the whole parse asks at most once
+// more: the following element call has to discover the end again - counted, not flagged),
+// AddressSanitizer stays silent, the allocation ledger is back at its baseline after cleanup,
+// events of a successful parse are well nested, a failed mpt_parse_node leaves the canonical form
+// (names, values, order, depth) and the old nodes of the target untouched, and what
+// mpt_parse_config refuses is never reported as success by mpt_parse_node.
 #include <sys/uio.h>
 #include <cstdlib>
 #include <ctime>
@@ -21,10 +25,11 @@
 
 using namespace mc;
 const char *mc_id = "C08";
-const char *mc_rule = "choice DFS: all byte strings of length <= L over the per-format token alphabet {section start/end, option start, assign, option end, comment, "
-                      "quote(s), backslash, newline, blank, 'a', '1', '-', NUL, 0xE9 (thorough: + '.', tab)} x format (pre/enc/sep/options-only, 11 delimiter sets) x name-flag set, "
-                      "plus long tokens (254..257, 65534..65537 bytes) in every position and all <=2 token mutations (delete/duplicate/replace/truncate) of a seed document per format; "
-                      "each input goes through mpt_parse_config (recording handler) and mpt_parse_node (empty + populated targets); "
+const char *mc_rule = "choice DFS: all byte strings of length <= L (quick 4, thorough 5) over the per-format token alphabet {section start/end, option start, assign, option end, comment, "
+                      "quote, backslash, newline, blank, 'a', '1', '-', NUL, 0xE9 (thorough: + second quote, '.')} x 11 format strings (pre/enc/sep/options-only families) x name-flag sets, "
+                      "plus one long token (254..257, 65534..65537 bytes) in every position, a 1..330 byte run followed by every string of length <= 2 (buffer fill sweep), all <=2 token mutations "
+                      "(delete/duplicate/truncate/replace) of a seed document per format and all strings <= 3 ending in a read error; "
+                      "each input goes through mpt_parse_config (recording handler, also with a failing handler), the element loop of examples/core/parse.c and mpt_parse_node (empty + two populated targets); "
                       "nontrivial = distinct (input,format,flags) cases where mpt_parse_node fails after elements had already been stored in its temporary tree while the target is populated";
 
 // ------------------------------------------------------------------ formats, flags
@@ -629,7 +634,7 @@ static void body_mut(Run &r, Ctx &x, int fi, int ni, const std::vector<uint8_t> 
 	if (!muts && eofcode == -2) {
 		uint64_t ok = g_cn[CFG_OK];
 		run_case(r, c, true);
-		if (g_cn[CFG_OK] > ok) ++g_seed_ok; else { ++g_seed_refused; r.count(fmt("mut:seed document refused, format %s flags %s (not flagged)", FMT[fi].id, FLG[ni].id)); }
+		if (g_cn[CFG_OK] > ok) ++g_seed_ok; else ++g_seed_refused;      // e.g. strict name flags refuse the seed's numeric/special names; the 'x' format with distinct delimiters never reports success
 		if (ni == 0) r.sample(fmt("seed document for format %s: %s", FMT[fi].id, show(c.in, c.n).c_str()));
 		++g_mut[0];
 		return;
